@@ -65,9 +65,15 @@ func TestVerifC03Sched(t *testing.T) {
 
 		// names: short ones plus long ones that force page extension (remap) after two or three
 		nnames := rapid.IntRange(1, 4).Draw(t, "nnames")
+		// one case in four: many long names, so that the file grows (and is re-mapped) several times and two
+		// threads can be changing the mapping at once
+		growthHeavy := rapid.IntRange(0, 3).Draw(t, "growthHeavy") == 0
+		if growthHeavy {
+			nnames = rapid.IntRange(5, 9).Draw(t, "nnamesGrowth")
+		}
 		names := make([]string, nnames)
 		for i := range names {
-			if rapid.IntRange(0, 2).Draw(t, "longName") == 0 {
+			if growthHeavy && i > 0 || rapid.IntRange(0, 2).Draw(t, "longName") == 0 {
 				names[i] = fmt.Sprintf("L%d/", i) + strings.Repeat("x", rapid.SampledFrom([]int{3000, 4000, 4090}).Draw(t, "longLen"))
 			} else {
 				names[i] = fmt.Sprintf("c%d", i)
@@ -398,7 +404,7 @@ func TestVerifC03Sched(t *testing.T) {
 		}
 		nt := switches > nthreads && len(overlapped) > 0
 		vstats.Case(fmt.Sprintf("poison=%v names=%d progs=%s schedule(len %d, %d switches)=%v", poison, nnames, strings.Join(ps, " "), len(trace), switches, tail(trace, 60)), nt,
-			fmt.Sprintf("poison:%v", poison), fmt.Sprintf("saturating:%v", saturating), "overlap:"+strings.Join(ov, "+"), fmt.Sprintf("switches>10:%v", switches > 10))
+			fmt.Sprintf("poison:%v", poison), fmt.Sprintf("saturating:%v", saturating), fmt.Sprintf("growthHeavy:%v", growthHeavy), "overlap:"+strings.Join(ov, "+"), fmt.Sprintf("switches>10:%v", switches > 10))
 		vstats.Note("scheduler_steps", int64(len(trace)))
 		vstats.NoteMax("max_steps_per_case", int64(len(trace)))
 	})
